@@ -1,23 +1,37 @@
 #!/bin/bash
-# Runs every seeded change of /verif/seeded (both rounds) against the quick check of its own property and
+# Runs every seeded change of /verif/seeded (all rounds) against the quick check of its own property and
 # writes /verif/seeded/RESULTS.md. Each patch is applied to the repository copy, the check is run, and the patch
 # is undone straight afterwards (selftest/try_mutant.sh). With EVAL_REPO / EVAL_VERIF set the run happens in a
 # private worktree of /repo and a copy of /verif (so /repo stays free for other work); by default in /repo itself.
+# PART=k/n processes every n-th change starting at k (several copies can then share the work);
+# `run_seeded.sh merge` assembles RESULTS.md from the parts.
 out=/verif/seeded/RESULTS.md
 R="${EVAL_REPO:-/repo}"
-{
-echo "Seeded changes against the quick check of their own property (seed ${VERIF_SEED:-0})."
-echo "Repository commit $(git -C $R rev-parse --short HEAD), /verif commit $(git -C /verif rev-parse --short HEAD), run in $R."
-echo
-echo "| seeded change | check | exit | first violation (sub-check) |"
-echo "|---|---|---|---|"
-} > $out.tmp
+if [ "${1:-}" = "merge" ]; then
+  {
+  echo "Seeded changes against the quick check of their own property (seed ${VERIF_SEED:-0})."
+  echo "Repository commit $(git -C /repo rev-parse --short HEAD), /verif commit $(git -C /verif rev-parse --short HEAD); run in private copies of both (selftest/run_seeded.sh, PART=k/n)."
+  echo "exit 1 = VIOLATION reported (the change is caught); exit 0 = not caught by the quick check (see meta.json of that change for why)."
+  echo
+  echo "| seeded change | check | exit | first violation (sub-check) |"
+  echo "|---|---|---|---|"
+  cat /verif/seeded/RESULTS.part*.tmp | sort
+  } > $out
+  rm -f /verif/seeded/RESULTS.part*.tmp
+  exit 0
+fi
+k=${PART%%/*}; n=${PART##*/}; k=${k:-0}; n=${n:-1}
+part=/verif/seeded/RESULTS.part$k.tmp
+: > $part
+i=0
 for d in /verif/seeded/C*-m*/ /verif/seeded/C*-r2m*/ /verif/seeded/C*-r3m*/ /verif/seeded/C*-r4m*/; do
+  i=$((i+1))
+  [ $((i % n)) -eq $k ] || continue
   name=$(basename $d); id=${name%%-*}
   r=$(/verif/selftest/try_mutant.sh $d/patch.diff $id 2>/dev/null | grep -v "conda\|Conda\|PermissionError\|^$")
   rc=$(echo "$r" | head -1 | sed 's/.*exit=\([0-9]*\).*/\1/')
   v=$(echo "$r" | sed -n 2p | sed 's/^ *-> *//' | cut -c1-110 | tr '|' '/')
-  echo "| $name | ./check $id quick | $rc | $v |" >> $out.tmp
+  echo "| $name | ./check $id quick | $rc | $v |" >> $part
   echo "$name $rc"
 done
-mv $out.tmp $out
+echo "PART $k/$n DONE"
